@@ -389,6 +389,23 @@ func (e *SpecEnv) evalCall(x *ast.CallExpr) Val {
 		return e.quantSort(x, "R_backwardEdge", func(v string) Val {
 			return Val{K: KRef, T: v, Sort: "R_backwardEdge", Go: e.run.ptrTypeByName("backwardEdge")}
 		})
+	case "addFrom", "subFrom":
+		// addFrom(J, index): J[k] + (k < len(index) && !isAll(index[k]) ? index[k].From : 0); subFrom subtracts
+		J := arg(0)
+		ix := arg(1)
+		if ix.K != KSlice || ix.S.Off != "0" {
+			specFail("%s: second argument must be an unsliced []Range", name)
+		}
+		e.run.needNamed("addFrom", `(declare-fun addFrom ((Array Int Int) (Array Int Range) Int) (Array Int Int))
+(declare-fun subFrom ((Array Int Int) (Array Int Range) Int) (Array Int Int))
+(define-fun rfrom ((A (Array Int Range)) (n Int) (k Int)) Int (ite (and (<= 0 k) (< k n) (not (and (= (From (select A k)) 0) (= (To (select A k)) 0)))) (From (select A k)) 0))
+(assert (forall ((J (Array Int Int)) (A (Array Int Range)) (n Int) (k Int)) (! (= (select (addFrom J A n) k) (+ (select J k) (rfrom A n k))) :pattern ((select (addFrom J A n) k)))))
+(assert (forall ((J (Array Int Int)) (A (Array Int Range)) (n Int) (k Int)) (! (= (select (subFrom J A n) k) (- (select J k) (rfrom A n k))) :pattern ((select (subFrom J A n) k)))))`)
+		return Val{K: KRef, T: sx(name, e.run.coerce(e.st, J, idxSort, name), e.run.sliceArr(e.st, ix.S), ix.S.Len), Sort: idxSort}
+	case "idx":
+		// idx(s): an []int slice viewed as a multi-index
+		v := arg(0)
+		return Val{K: KRef, T: e.run.coerce(e.st, v, idxSort, name), Sort: idxSort}
 	case "anyOf":
 		v := arg(0)
 		if v.K != KRef {
@@ -450,6 +467,17 @@ func (e *SpecEnv) evalCall(x *ast.CallExpr) Val {
 		eb := e.run.sliceElem(e.st, b.S, k)
 		return boolV(and(eq(a.S.Len, b.S.Len), fmt.Sprintf("(forall ((%s Int)) %s)", k, implies(and(sx("<=", "0", k), sx("<", k, a.S.Len)), specEq(w, ea, eb)))))
 	}
+	if m, ok := e.run.prog.Macros[name]; ok && m.Sorts != nil {
+		if len(m.Params) != len(x.Args) {
+			specFail("predicate %s expects %d arguments", name, len(m.Params))
+		}
+		e.run.needPredicate(m)
+		var args []string
+		for i, srt := range m.Sorts {
+			args = append(args, e.run.coerce(e.st, arg(i), srt, name))
+		}
+		return boolV(sx("P_"+name, args...))
+	}
 	if m, ok := e.run.prog.Macros[name]; ok {
 		if len(m.Params) != len(x.Args) {
 			specFail("macro %s expects %d arguments", name, len(m.Params))
@@ -502,4 +530,33 @@ var domainFuncs = map[string]domainFunc{}
 func registerDomain(name string, args []string, res string, axioms string, deps ...string) {
 	decl := fmt.Sprintf("(declare-fun %s (%s) %s)\n%s", name, strings.Join(args, " "), res, axioms)
 	domainFuncs[name] = domainFunc{smt: name, args: args, res: res, decl: decl, deps: deps}
+}
+
+// needPredicate declares the uninterpreted predicate P_<name> with its defining axiom (once per run).
+func (r *UnitRun) needPredicate(m *Macro) {
+	key := "pred:" + m.Name
+	if r.needs[key] {
+		return
+	}
+	r.needs[key] = true // set first: recursion guard
+	bound := map[string]Val{}
+	var binders, args []string
+	for i, p := range m.Params {
+		v := "p!" + sanitize(p)
+		binders = append(binders, fmt.Sprintf("(%s %s)", v, m.Sorts[i]))
+		args = append(args, v)
+		bound[p] = r.valOfSort(v, m.Sorts[i])
+		if m.Sorts[i] == "T" {
+			bv := bound[p]
+			bv.Go = nil
+			bound[p] = bv
+		}
+	}
+	env := &SpecEnv{run: r, st: nil, bound: bound}
+	body := env.boolOf(m.Body)
+	text := fmt.Sprintf("(declare-fun P_%s (%s) Bool)\n(assert (forall (%s) (! (= (P_%s %s) %s) :pattern ((P_%s %s)))))",
+		m.Name, strings.Join(m.Sorts, " "), strings.Join(binders, " "), m.Name, strings.Join(args, " "), body, m.Name, strings.Join(args, " "))
+	// the body may have pulled in further declarations, which must precede this one: append now
+	r.needOrd = append(r.needOrd, key)
+	extraDecls[key] = text
 }
